@@ -83,6 +83,15 @@ pub fn universe() -> Vec<RuleSpec> {
     let mut r = mk("r11", "r11 static /a + weekdays[Mon,Tue]");
     r.weekdays = Some(vec!["Mon".into(), "Tue".into()]);
     v.push(r);
+    // r12: its only header condition is one r5 also has, in the SAME header matcher (r5 and r12 have no host): the
+    // per-matcher condition table is shared between the two groups, removing one rule must not touch the other
+    let mut r = mk("r12", "r12 headers{X=v} (condition shared with r5 in one matcher)");
+    r.headers = vec![hc("is_equals", "X", Some("v"))];
+    v.push(r);
+    // r13: the empty host is legal and means "any host"
+    let mut r = mk("r13", "r13 host \"\" (any host) static /a");
+    r.host = Some(String::new());
+    v.push(r);
     v
 }
 
